@@ -91,8 +91,8 @@ def rand_wtree(rng, depth, shape=None, base=0):
             else:
                 ch = rand_wtree(rng, depth - 1, shape=cshape)
             children.append(ch)
-            if rng.random() < 0.05:
-                # block definition running backwards (listed defect block-reversed-definition: every chunk reaching it is refused)
+            if rng.random() < 0.12:
+                # block definition running backwards (served since the repair F1 of _find_slice_overlap)
                 arrangement.append([[b - 1, (a - 1 if a > 0 else None), -1] for a, b in c])
             else:
                 arrangement.append([[a, b, 1] for a, b in c])
